@@ -7,7 +7,8 @@ EXTENDS Integers, Sequences, FiniteSets, TLC
 
 CONSTANTS Symbols, MaxRows, MaxLen, MaxPool, MaxDepth,
           Ops,            \* operation alphabet of this run
-          StartArrays     \* the arrays a program may start from
+          StartArrays,    \* the arrays a program may start from
+          Matrix          \* the arrays are rectangular character matrices (2-D): columns may also be picked by an index list or a mask
 
 RECURSIVE Strs(_)
 Strs(n) == IF n = 0 THEN {<<>>} ELSE LET R == Strs(n - 1) IN R \cup {Append(r, x) : r \in {q \in R : Len(q) = n - 1}, x \in Symbols}
@@ -28,6 +29,8 @@ ColSel(kind, r) ==
     [] kind = "::-1" -> [j \in DOMAIN r |-> r[Len(r) + 1 - j]]
     [] kind = ":-1"  -> SubSeq(r, 1, Len(r) - 1)
     [] kind = "0:1"  -> SubSeq(r, 1, IF Len(r) >= 1 THEN 1 ELSE 0)
+    [] kind = "cfancy" -> IF r = <<>> THEN <<>> ELSE <<r[Len(r)], r[1]>>                     \* [:, [-1, 0]]
+    [] kind = "cmask"  -> [j \in 1..((Len(r) + 1) \div 2) |-> r[2 * j - 1]]               \* [:, [True, False, True, ...]]
 RECURSIVE Flat(_)
 Flat(a) == IF a = <<>> THEN <<>> ELSE Head(a) \o Flat(Tail(a))
 
@@ -44,7 +47,7 @@ Same(op, o) == prog' = Append(prog, op) /\ obs' = o /\ UNCHANGED pool
 RowSelect == "rows" \in Ops /\ \E i \in DOMAIN pool : \E kind \in {"1:", "::2", "::-1", "mask", "fancy", "0:0"} :
                Room /\ LET a == pool[i] IN LET idx == RowIdx(kind, Len(a)) IN
                New([j \in DOMAIN idx |-> a[idx[j]]], [op |-> "rows", t |-> i, sel |-> kind], [kind |-> "array"])
-ColSelect == "cols" \in Ops /\ \E i \in DOMAIN pool : \E kind \in {"1:", "::-1", ":-1", "0:1"} :
+ColSelect == "cols" \in Ops /\ \E i \in DOMAIN pool : \E kind \in {"1:", "::-1", ":-1", "0:1"} \cup (IF Matrix THEN {"cfancy", "cmask"} ELSE {}) :
                Room /\ New([j \in DOMAIN pool[i] |-> ColSel(kind, pool[i][j])], [op |-> "cols", t |-> i, sel |-> kind], [kind |-> "array"])
 Concat    == "concat" \in Ops /\ \E i, k \in DOMAIN pool : Room /\ New(pool[i] \o pool[k], [op |-> "concat", t |-> i, u |-> k], [kind |-> "array"])
 Copy      == "copy" \in Ops /\ \E i \in DOMAIN pool : Room /\ New(pool[i], [op |-> "copy", t |-> i], [kind |-> "array"])
